@@ -34,6 +34,8 @@ func main() {
 	case "census":
 		census(*repo)
 		return
+	case "all":
+		os.Exit(runAll(*repo, *verif, *tier))
 	case "list":
 		for _, id := range rules.IDs() {
 			fmt.Println(id)
@@ -107,4 +109,38 @@ func run(repo, verif, tier, prop, only string, seed int64, noEvidence bool) (cod
 		return 2
 	}
 	return code
+}
+
+// runAll loads the program once and evaluates every property on it (development aid for scratch variants):
+// prints one line per unheld obligation that is not a listed known finding.
+func runAll(repo, verif, tier string) int {
+	ctx, err := core.Load(repo, tier)
+	if err != nil {
+		fmt.Fprintln(os.Stderr, "iocvet: cannot analyse:", err)
+		return 2
+	}
+	findings, _ := core.LoadFindings(filepath.Join(verif, "known_findings.json"))
+	known := map[string]bool{}
+	for _, f := range findings {
+		if f.Status == "known" {
+			known[f.Key] = true
+		}
+	}
+	bad := 0
+	for _, id := range rules.IDs() {
+		rep := rules.RunOn(ctx, id)
+		seen := map[string]bool{}
+		for _, o := range rep.Obls {
+			if o.Verdict == core.Held || known[o.Key()] || seen[o.Key()] {
+				continue
+			}
+			seen[o.Key()] = true
+			bad++
+			fmt.Printf("== %s %s rule=%s construct=%q at=%s: %s\n", id, o.Verdict, o.Rule, o.Construct, o.Pos, o.Detail)
+		}
+	}
+	if bad > 0 {
+		return 1
+	}
+	return 0
 }
